@@ -216,6 +216,13 @@ func gen(r *vh.Rand, tier string, n int, emit func(vh.Case)) {
 				str = str[:19] + "." + vh.Pick(cr, []string{"1234567891", "0000000001", "999999999999", "5", ""}) + "Z"
 			case 6:
 				str += vh.Pick(cr, []string{"Z", " ", "x"})
+			case 7: // a separator position replaced (Go accepts ',' for '.', nothing else)
+				b := []byte(str)
+				pos := vh.Pick(cr, []int{4, 7, 10, 13, 16, 19, len(b) - 1})
+				if pos < len(b) {
+					b[pos] = vh.Pick(cr, []byte("-:.,TZtz +_/0;"))
+				}
+				str = string(b)
 			}
 			c.Ops = append(c.Ops, "ptime "+vh.Hex([]byte(str)))
 		}
